@@ -88,7 +88,7 @@ PREVIOUS_ANCHOR = ('<?xml version="1.0" encoding="UTF-8"?>\n<TrustAnchor id="pre
                              f'<Digest>{"%064X" % (i * 7919)}</Digest>\n</KeyDigest>\n' for i in range(12)) + "</TrustAnchor>\n").encode()
 
 
-def export_case(modules, ksks, keys_by_label, ident, kind, ttl=172800):
+def export_case(modules, ksks, keys_by_label, ident, kind, ttl=172800, configured_path=None):
     """modules: signcases layout; ksks: {name: config dict}; keys_by_label: label -> key dict for the reference"""
     tok = S.build_token(modules)
     emu.install(tok)
@@ -97,7 +97,8 @@ def export_case(modules, ksks, keys_by_label, ident, kind, ttl=172800):
     schemas = {"s": {i: {"publish": first, "sign": first} for i in range(1, 10)}} if first else {}
     try:
         cfg = ceremony.make_config(ksks, schemas, hsm=hsm, ksk_policy={"publish_safety": "P10D", "retire_safety": "P10D", "max_signature_validity": "P21D",
-                                                                     "min_signature_validity": "P21D", "max_validity_overlap": "P16D", "min_validity_overlap": "P9D", "ttl": ttl})
+                                                                     "min_signature_validity": "P21D", "max_validity_overlap": "P16D", "min_validity_overlap": "P9D", "ttl": ttl},
+                                   filenames=({"output_trustanchor": str(configured_path)} if configured_path else None))
     except Exception as e:  # noqa: BLE001
         count(kind + "-config-rejected:" + type(e).__name__)
         return
@@ -332,6 +333,12 @@ for nz_ in (1, 2):
         kz_ = ksrxml.mk_key(P.ec_ds_prefix(alg_, 257, nz_), alg=alg_, flags=257, ident=f"Kds0{nz_}a{alg_}")
         export_case(token_for([kz_, KEYS[0]]), {"z": ceremony.ksk_def(kz_, valid_from=t0), "a": ceremony.ksk_def(KEYS[0], valid_from=t0 + dt.timedelta(days=1))}, None, f"ds0{nz_}", "digest-with-leading-zeros")
 P.save()
+# --trustanchor on the command line names the file of this export, whatever the configuration file also names
+for j_ in range(2):
+    other_ = WORK / f"configured-anchor-{j_}.xml"
+    other_.write_bytes(b"<old/>")
+    export_case(token_for([KEYS[0], KEYS[1]]), {"a": ceremony.ksk_def(KEYS[0], valid_from=t0), "b": ceremony.ksk_def(KEYS[1], valid_from=t0 + dt.timedelta(days=1))}, None, f"cmdline-{j_}",
+                "command-line-path-wins", configured_path=other_)
 # RSA public exponents of every length form of RFC 3110 (one length octet up to 255 octets, three beyond): public objects given by their raw attributes
 import PyKCS11.LowLevel as _LL
 for elen in (1, 3, 4, 254, 255, 256, 257):
